@@ -294,6 +294,15 @@ pub fn generate_c09(rng: &mut Rng, thorough: bool) -> Vec<String> {
 
 pub fn generate_c06(rng: &mut Rng, thorough: bool) -> Vec<String> {
     let mut v = Vec::new();
+    // instants read from strings: second 60 is read as second 59 (with any fraction, offset and date), offsets of
+    // either sign with and without an hour part, the limits
+    for d in ["2016-12-31", "1969-12-31", "1970-01-01", "-000001-06-30", "+275760-09-12", "-271821-04-20"] {
+        for t in ["T23:59:60", "T23:59:60.5", "T23:59:60.999999999", "T00:00:60", "T12:30:59.25", "T235960", "T23:59:59.9999995"] {
+            for o in ["Z", "+00:00", "-00:30", "+00:30", "-00:00:00.5", "-05:00", "+14:00", "-00:59:59.5"] {
+                v.push(format!("p_instant {}", super::c03::hex(format!("{d}{t}{o}").as_bytes())));
+            }
+        }
+    }
     let day_ns: i128 = 86_400_000_000_000;
     let max_inst: i128 = 8_640_000_000_000_000_000_000;
     let n = if thorough { 300_000 } else { 30_000 };
